@@ -60,6 +60,7 @@ type regAccess struct {
 	Key   ssa.Value // map key (nil for replace/range)
 	Shard ssa.Value // the shard value the map belongs to
 	Val   ssa.Value // stored value for update/replace
+	Via   string    // helper function the access physically sits in ("" = in Fn itself)
 }
 
 func (R *BusRoles) isRegistryMapLoad(v ssa.Value) (shard ssa.Value, ok bool) {
@@ -70,7 +71,71 @@ func (R *BusRoles) isRegistryMapLoad(v ssa.Value) (shard ssa.Value, ok bool) {
 	return base, true
 }
 
+// registryAccesses lists every access to a registry map. Accesses made in helper
+// functions whose shard (or key) is a parameter are attributed to each static call site
+// of the helper, with the parameter replaced by the call's argument.
 func registryAccesses(p *Prog, R *BusRoles) []regAccess {
+	raw := registryAccessesRaw(p, R)
+	var out []regAccess
+	var expand func(a regAccess, depth int)
+	expand = func(a regAccess, depth int) {
+		sp, shardIsParam := stripConv(a.Shard).(*ssa.Parameter)
+		if !shardIsParam || depth > 3 || sp.Parent() != a.Fn {
+			out = append(out, a)
+			return
+		}
+		found := false
+		for _, g := range p.FuncsIn(PkgBus) {
+			for _, b := range g.Blocks {
+				for _, in := range b.Instrs {
+					ci, ok := in.(ssa.CallInstruction)
+					if !ok {
+						continue
+					}
+					sc := ci.Common().StaticCallee()
+					if sc == nil {
+						continue
+					}
+					if o := sc.Origin(); o != nil {
+						sc = o
+					}
+					if sc != a.Fn {
+						continue
+					}
+					found = true
+					na := a
+					na.Fn = g
+					na.In = in
+					bind := func(v ssa.Value) ssa.Value {
+						if pv, ok := stripConv(v).(*ssa.Parameter); ok && pv.Parent() == a.Fn {
+							for i, fp := range a.Fn.Params {
+								if fp == pv && i < len(ci.Common().Args) {
+									return ci.Common().Args[i]
+								}
+							}
+						}
+						return v
+					}
+					na.Shard = bind(a.Shard)
+					if a.Key != nil {
+						na.Key = bind(a.Key)
+					}
+					na.Via = FuncDisplay(a.Fn)
+					expand(na, depth+1)
+				}
+			}
+		}
+		if !found {
+			out = append(out, a)
+		}
+	}
+	for _, a := range raw {
+		expand(a, 0)
+	}
+	return out
+}
+
+func registryAccessesRaw(p *Prog, R *BusRoles) []regAccess {
 	var out []regAccess
 	for _, f := range p.FuncsIn(PkgBus) {
 		for _, b := range f.Blocks {
@@ -515,6 +580,10 @@ func checkSnapshot(c *Ctx, p *Prog, R *BusRoles, rule string) {
 	}
 	pos := p.Pos(header.Instrs[0].Pos())
 	src, how := freshCopyOf(ranged)
+	if src == nil && privateBuilt(ranged, R, 0, map[ssa.Value]bool{}) {
+		c.Discharge(rule, "PublishContext/dispatch-loop/snapshot", pos, "the loop ranges over a slice built by this publish from nil/make through appends (never aliasing the registry list)")
+		return
+	}
 	if src == nil {
 		detail := "the dispatch loop iterates over " + describeValue(ranged) + ", which is not a private copy made by this publish: handlers run while other goroutines (or re-entrant calls) edit the same backing array"
 		if _, ok := R.isRegistryLookup(ranged); ok {
@@ -773,6 +842,40 @@ func dominatedByWriteLock(in ssa.Instruction, f *ssa.Function, R *BusRoles) bool
 					}
 				}
 			}
+		}
+	}
+	return false
+}
+
+// privateBuilt: v is built inside this function from nil / make through appends whose
+// first operand is itself privately built (so it never aliases a registry list).
+func privateBuilt(v ssa.Value, R *BusRoles, d int, seen map[ssa.Value]bool) bool {
+	v = stripConv(v)
+	if v == nil || d > 8 {
+		return false
+	}
+	if seen[v] {
+		return true
+	}
+	seen[v] = true
+	switch x := v.(type) {
+	case *ssa.Const:
+		return x.Value == nil
+	case *ssa.MakeSlice:
+		return true
+	case *ssa.Phi:
+		for _, e := range x.Edges {
+			if !privateBuilt(e, R, d+1, seen) {
+				return false
+			}
+		}
+		return true
+	case *ssa.Call:
+		if bi, ok := x.Common().Value.(*ssa.Builtin); ok && bi.Name() == "append" {
+			return privateBuilt(x.Common().Args[0], R, d+1, seen)
+		}
+		if calleeName(x.Common()) == "slices.Clone" {
+			return true
 		}
 	}
 	return false
